@@ -529,6 +529,12 @@ int main(int argc, char** argv)
         }
     }
 
+    if (PhaseSpace::nx != ps_bins) {
+        Display::printText("Grid size of initial distribution does not match "
+                           "GridSize. Will now quit.");
+        return EXIT_SUCCESS;
+    }
+
     // an initial renormalization might be applied
     VERIF_POINT("setup:grid_created",0);
     if (renormalize >= 0) {
